@@ -27,6 +27,7 @@ inductive PyErr where
   | keyError (n : Nat)
   | valueError (what : String)
   | typeError (what : String)
+  | mappingError (what : String)   -- `chython.exceptions.MappingError` (a `ValueError` subclass)
   deriving Repr, DecidableEq
 
 /-- `structure._bonds` as `_get_deleted` reads it: keys and neighbour keys, both in dict order -/
@@ -460,6 +461,16 @@ def union (a b : Mol) : Except PyErr Mol :=
       | .error e => .error e
       | .ok b' => .ok ⟨dictUpdate a.atoms b'.atoms, dictUpdate a.adj b'.adj⟩
   else .ok ⟨dictUpdate a.atoms b.atoms, dictUpdate a.adj b.adj⟩
+
+/-- `a.union(b)` = `a.union(b, remap=False)`: `MappingError('mapping of graphs is not disjoint')` when a number occurs in
+both operands, otherwise the plain dict merge (same as the collision-free branch of `union`) -/
+def unionStrict (a b : Mol) : Except PyErr Mol :=
+  if a.ids.any b.ids.contains then .error (.mappingError "mapping of graphs is not disjoint")
+  else .ok ⟨dictUpdate a.atoms b.atoms, dictUpdate a.adj b.adj⟩
+
+/-- `Graph.union(other, remap=flag)` -/
+def unionR (remapFlag : Bool) (a b : Mol) : Except PyErr Mol :=
+  if remapFlag then union a b else unionStrict a b
 
 /-- `reduce(or_, chosen)` -/
 def unionAll : List Mol → Except PyErr Mol
